@@ -105,10 +105,10 @@ Require Import Funcs FuncsPinsLib FuncsPinSectionType FuncsPinRoute.
 Theorem C05_section_type_current : forall title,
   stype_name (section_type title) = py_determine_section_type title.
 Proof. exact section_type_pin. Qed.
-Theorem C05_route_current : forall title sec l,
+Theorem C05_route_current : forall title sec l version_is_3,
   startswith [ch_tilde] title = true ->
   option_map (fun letter => route title letter sec l) (second_upper title)
-  = option_map (fun key => store_section key sec l) (py_route_key title false).
+  = option_map (fun key => store_section key sec l) (py_route_key title version_is_3 false).
 Proof. exact route_pin. Qed.
 Print Assumptions C05_section_type_current.
 Print Assumptions C05_route_current.
